@@ -62,6 +62,29 @@ def run_unpack(mod, root, raw, start, with_events=True):
     except Exception as e:
         out.update(st="escape", exc_type=type(e).__name__, exc_msg=str(e)[:200])
     finally:
+        pass
+    if out["st"] in ("fail", "escape"):
+        # unpack(..., silent=True) returns None on any failure
+        try:
+            r = cls.unpack(bytes(raw), start, silent=True)
+            if r is not None:
+                out["silent_error"] = "silent=True returned %r for a failing input" % type(r).__name__
+        except Exception as e:
+            out["silent_error"] = "silent=True raised %s" % type(e).__name__
+    if not getattr(cls, "_verif_notbytes_checked", False):
+        cls._verif_notbytes_checked = True
+        for bad in (bytearray(raw), bytes(raw).decode("latin1"), None, list(raw)):
+            for silent in (False, True):
+                try:
+                    cls.unpack(bad, start, silent=silent)
+                    out["notbytes_error"] = "input of type %s was accepted" % type(bad).__name__
+                except ValueError:
+                    pass
+                except Exception as e:
+                    out["notbytes_error"] = "input of type %s raised %s instead of ValueError" % (type(bad).__name__, type(e).__name__)
+    try:
+        pass
+    finally:
         if orig_impl is None:
             try:
                 del cls.unpack_impl
@@ -105,6 +128,12 @@ def compare_case(mod, d, case, gen, opts):
         return mm, ro, None
     if "str_error" in ro:
         mm.append(("C12.str_total", "str(PacketError) failed: " + ro["str_error"]))
+    if "silent_error" in ro:
+        mm.append(("C12.silent", ro["silent_error"]))
+    if "notbytes_error" in ro:
+        mm.append(("C12.not_bytes", ro["notbytes_error"]))
+    if ro["st"] == "done" and u["st"] == "fail":
+        mm.append(("C04_OverAccept", "code accepted an input the specification rejects"))
     if ro["st"] != u["st"]:
         mm.append(("conf_outcome", "code %s, specification %s%s" % (
             ro["st"], u["st"], (" err=%r" % (ro.get("err"),)) if ro["st"] == "fail" else "")))
@@ -178,6 +207,10 @@ def _winit(repo, univ, gens, optsd):
 
 
 def _wrun(chunk):
+    """Replays a chunk; for every execution that differs from the specification anywhere the
+    RECORDED observation of that very execution is returned (history-dependent behaviour must be
+    judged on the run that showed it, not on a re-run)."""
+    from bind import trace_packet as tp
     out = []
     sc = _W["scratch"]
     for case in chunk:
@@ -187,10 +220,14 @@ def _wrun(chunk):
                 mod = sc.load(d["prog"], gen)
                 mm, ro, po = compare_case(mod, d, case, gen, _W["opts"])
             except Exception:
-                mm = [("harness", traceback.format_exc()[-1500:])]
-            for clause, detail in mm:
                 out.append({"d": case["d"], "raw": case["raw"], "start": case["start"], "gen": gen,
-                            "clause": clause, "detail": detail})
+                            "clauses": ["harness"], "detail": traceback.format_exc()[-1500:], "rec": None, "extra": {}})
+                continue
+            if mm:
+                rec, extra = tp.make_record(d, case["raw"], case["start"], gen, ro, po, _W["opts"].get("c01", True))
+                out.append({"d": case["d"], "raw": case["raw"], "start": case["start"], "gen": gen,
+                            "clauses": [c for c, _ in mm], "detail": "; ".join("%s: %s" % (c, t[:300]) for c, t in mm[:3]),
+                            "rec": rec, "extra": extra})
     return len(chunk), out
 
 
